@@ -452,6 +452,8 @@ impl<T: Qcow2IoOps> Qcow2Dev<T> {
 
     //// flush refcount table and block dirty data to disk
     pub(crate) async fn flush_refcount(&self) -> Qcow2Result<()> {
+        let mut rt_written = false;
+
         loop {
             let rt = &*self.reftable.read().await;
             let done = self
@@ -462,6 +464,15 @@ impl<T: Qcow2IoOps> Qcow2Dev<T> {
             if done {
                 break;
             }
+            rt_written = true;
+        }
+
+        // Mappings are written after refcounts: one refcount table block
+        // written above has to be on disk before them, otherwise a crash may
+        // keep the mapping but lose the pointer to the refcount block which
+        // holds the refcount of the mapped cluster
+        if rt_written {
+            self.call_fsync(0, usize::MAX, 0).await?;
         }
         Ok(())
     }
